@@ -94,6 +94,7 @@ const (
 	clsNon      = "nonmember"
 	clsPair     = "correlatedpair"
 	clsFields   = "hashfields"
+	clsFlood    = "floodjunk"
 )
 
 type sym struct {
@@ -149,6 +150,8 @@ var (
 )
 
 const maxMembers = 5
+
+const maxFlood = 1024 // junk messages prepared per member
 
 func boot() {
 	if booted {
@@ -427,6 +430,16 @@ func (e *env) buildAlphabet() {
 		pair("sum-identity", false, g1add(s1, s2), identity)
 		pair("identity-sum", false, identity, g1add(s1, s2))
 		pair("negated", false, g1neg(s1), g1neg(s2))
+		// flood junk (volume dimension, flood.go): distinct messages (own message id each) of member i
+		// that reuse one signature over another hash and differ in the claimed hash only
+		sigK := sig(sk, H2.Bytes())
+		for j := 0; j < maxFlood; j++ {
+			dh := common.BytesToHash(common.Sha256([]byte(fmt.Sprintf("verif-c15/junk/%d/%d", i, j))))
+			if j == 0 {
+				dh = H2 // the first one is well-signed for the hash it claims
+			}
+			e.add(w(sym{Name: fmt.Sprintf("junk(%d)#%d", i, j), Class: clsFlood, Sender: i, Byz: i}, H, dh, sigK, id, s2))
+		}
 	}
 	// senders that are not members of the group
 	xid, xsk := detID("outsider"), detSk("outsider-key")
@@ -450,6 +463,8 @@ type kase struct {
 	// (round1.Start replays them), then Seq
 	Phased bool     `json:"phased,omitempty"`
 	Parked []string `json:"parked,omitempty"`
+	// volume histories (flood.go): regenerated from the description
+	Flood *floodCase `json:"flood,omitempty"`
 }
 
 type finding struct {
@@ -842,7 +857,7 @@ func (e *env) bfs(c *fw.Ctx, byz []int, depth int, coreOnly bool) {
 	}
 	var alpha []int
 	for i, s := range e.syms {
-		if (s.Byz < 0 || isB[s.Byz]) && (!coreOnly || s.Core) {
+		if s.Class != clsFlood && (s.Byz < 0 || isB[s.Byz]) && (!coreOnly || s.Core) {
 			alpha = append(alpha, i)
 		}
 	}
@@ -1017,6 +1032,16 @@ func run(c *fw.Ctx) {
 			e.phased(c, &idx, b, p.phLive, p.phParty, p.phCore)
 		}
 	}
+	// phase 1c: volume (one faulty member floods with distinct junk messages)
+	ladder := []int{1, 70, 300}
+	floodN := []int{3, 5}
+	if c.Thorough() {
+		ladder = []int{1, 8, 64, 256, maxFlood}
+		floodN = []int{3, 4, 5}
+	}
+	for _, n := range floodN {
+		getEnv(n).floods(c, &idx, ladder)
+	}
 	// phase 2: literal enumeration
 	for _, p := range ps {
 		e := getEnv(p.n)
@@ -1042,6 +1067,12 @@ func replay(c *fw.Ctx, raw json.RawMessage) {
 			panic("replay: unknown message " + nm)
 		}
 		seq = append(seq, i)
+	}
+	if k.Flood != nil {
+		if f := e.runFlood(*k.Flood); f != nil {
+			c.Violation(f.Sig, f.Part, f.Msg, k)
+		}
+		return
 	}
 	if k.Phased {
 		var parked []int
